@@ -50,11 +50,52 @@ FLOWS = {
     "trace": _unit_rate(_mat([[0.8, 0.5, 0.0], [-0.3, 0.1, 0.4], [0.2, -0.6, -0.3]])),
     "rot": _mat([[0, -1, 0], [1, 0, 0], [0, 0, 0]]),  # pure vorticity: zero strain rate
 }
+PN_CLASSES = {0: (1.5, 3.5), 1: (1.0, 2.0), 2: (2.0, 5.0)}  # (p, n) classes of par.x[2]
 DT = 0.2  # time span of one update call at unit strain rate (strain increment 0.2)
 
 
-def flow_matrix(fl, rate=1.0):
+# time- and position-dependent commuting families L = g * M  (closed form: expm(M * int g))
+TDEP = {"tdep": ("gen3d", lambda t, x: 1.0 + 0.5 * t), "xdep": ("trace", lambda t, x: 1.0 + 0.25 * x[0])}
+XVEL = np.array([0.7, -0.2, 0.1])  # pathline x(t) = XVEL * t for position-dependent flows
+
+
+def flow_matrix(fl, rate=1.0, t=0.0):
+    if fl in TDEP:
+        base, g = TDEP[fl]
+        return FLOWS[base] * rate * g(t * rate, XVEL * t * rate)
     return FLOWS[fl] * rate
+
+
+def flow_callables(fl, rate=1.0):
+    """(get_velocity_gradient(t, x), get_position(t)) for a flow class."""
+    if fl in TDEP:
+        base, g = TDEP[fl]
+        M = FLOWS[base] * rate
+        return (lambda t, x: M * g(t * rate, np.asarray(x) * 1.0)), (lambda t: XVEL * t * rate)
+    L = FLOWS[fl] * rate
+    return (lambda t, x: L), (lambda t: np.zeros(3))
+
+
+def flow_integral(fl, t0, t1, rate=1.0):
+    """int_{t0}^{t1} L dt for the commuting families (exact closed form)."""
+    if fl == "tdep":
+        s0, s1 = t0 * rate, t1 * rate
+        return FLOWS["gen3d"] * ((s1 - s0) + 0.25 * (s1**2 - s0**2))
+    if fl == "xdep":
+        s0, s1 = t0 * rate, t1 * rate
+        return FLOWS["trace"] * ((s1 - s0) + 0.125 * XVEL[0] * (s1**2 - s0**2))
+    return FLOWS[fl] * rate * (t1 - t0)
+
+
+def strain_of(fl, t0, t1, rate=1.0, k=16):
+    """accumulated strain int |dt| max|eig D| (midpoint rule; integrand is smooth)."""
+    ts = np.linspace(t0, t1, k + 1)
+    tm = (ts[1:] + ts[:-1]) / 2
+    tot = 0.0
+    for a, b, c in zip(ts[:-1], ts[1:], tm):
+        L = flow_matrix(fl, rate, c)
+        tot += (b - a) * np.abs(np.linalg.eigvalsh((L + L.T) / 2)).max()
+    return tot
 
 
 def make_params(par):
@@ -71,8 +112,9 @@ def make_params(par):
     p["phase_fractions"] = fr
     p["gbm_mobility"] = par["M"]
     p["gbs_threshold"] = par["chi"] / 10.0
-    if "lam" in par:
-        p["nucleation_efficiency"] = float(par["lam"])
+    x = par.get("x") or [5, 0]
+    p["nucleation_efficiency"] = float(x[0])
+    p["stress_exponent"], p["deformation_exponent"] = PN_CLASSES[x[1]]
     return p
 
 
@@ -141,7 +183,7 @@ def snapshot_measures(o, f, n):
 class World:
     """The real objects a behaviour acts on, plus what the client would hold."""
 
-    def __init__(self, scratch_dir, n_override=None, rate=1.0):
+    def __init__(self, scratch_dir, n_override=None, rate=1.0, dt=None):
         import pydrex
 
         self.pydrex = pydrex
@@ -155,6 +197,7 @@ class World:
         self.fid_registry = {}  # sha -> canonical id of a fractions array
         self.fids = {}  # mineral -> list of canonical ids parallel to .fractions
         self.rate = rate
+        self.dt = (dt if dt is not None else DT) / rate
         self.n_override = n_override
         self.events = []
 
@@ -219,22 +262,23 @@ class World:
 
     def _update(self, name, fl, par, cb, F):
         m = self.minerals[name]
-        L = flow_matrix(fl, self.rate)
-        dt = DT / self.rate
+        dt = self.dt
         t0 = self.t[name]
-        getL = lambda t, x: L  # noqa: E731
-        getx = lambda t: np.zeros(3)  # noqa: E731
+        getL, getx = flow_callables(fl, self.rate)
         get_regime = None if cb in (None, NOCB) else (lambda t, x: cb)
         Fn = m.update_orientations(make_params(par), F, getL, (t0, t0 + dt, getx), get_regime=get_regime)
-        return Fn, L, dt
+        return Fn, fl, dt
 
-    def _after_ok(self, name, Fn, L, dt):
-        self.F[name] = Fn
-        self.Fexp[name] = expm(L * dt) @ self.Fexp[name]
-        self.t[name] += dt
+    def _advance(self, name, fl, dt):
+        t0 = self.t[name]
+        self.Fexp[name] = expm(flow_integral(fl, t0, t0 + dt, self.rate)) @ self.Fexp[name]
+        self.strain[name] += strain_of(fl, t0, t0 + dt, self.rate)
+        self.t[name] = t0 + dt
         self.nupd[name] += 1
-        D = (L + L.T) / 2
-        self.strain[name] += dt * np.abs(np.linalg.eigvalsh(D)).max()
+
+    def _after_ok(self, name, Fn, fl, dt):
+        self.F[name] = Fn
+        self._advance(name, fl, dt)
 
     def _UpdateOk(self, act):
         name = act["m"]
@@ -251,8 +295,9 @@ class World:
     def _UpdateAllOk(self, act):
         pd = self.pydrex
         ms = act["ms"]
-        L = flow_matrix(act["fl"], self.rate)
-        dt = DT / self.rate
+        fl = act["fl"]
+        getL, getx = flow_callables(fl, self.rate)
+        dt = self.dt
         t0 = self.t[ms[0]]
         lens = {x: len(self.minerals[x].orientations) for x in ms}
         try:
@@ -260,19 +305,15 @@ class World:
                 [self.minerals[x] for x in ms],
                 make_params(act["par"]),
                 self.Fexp[ms[0]].copy(),
-                lambda t, x: L,
-                (t0, t0 + dt, lambda t: np.zeros(3)),
+                getL,
+                (t0, t0 + dt, getx),
             )
         finally:
             # bookkeeping for the minerals that did move on (UpdateAllPartial)
             for x in ms:
                 if len(self.minerals[x].orientations) == lens[x] + 1:
-                    self.Fexp[x] = expm(L * dt) @ self.Fexp[x]
-                    self.t[x] += dt
-                    self.nupd[x] += 1
-                    D = (L + L.T) / 2
-                    self.strain[x] += dt * np.abs(np.linalg.eigvalsh(D)).max()
-                    self.F[x] = expm(L * dt) @ self.F[x]  # client has no returned value on failure
+                    self._advance(x, fl, dt)
+                    self.F[x] = self.Fexp[x].copy()  # client has no returned value on failure
         for x in ms:
             self.F[x] = Fn
 
@@ -375,8 +416,7 @@ class World:
         for name in names:
             if name in self.minerals:
                 grew = len(self.minerals[name].orientations) == lens_before.get(name, 0) + 1
-                L = flow_matrix(act["fl"], self.rate) if "fl" in act else np.zeros((3, 3))
-                ds = (DT / self.rate) * np.abs(np.linalg.eigvalsh((L + L.T) / 2)).max()
+                ds = strain_of(act["fl"], self.t[name] - self.dt, self.t[name], self.rate) if ("fl" in act and grew) else 0.0
                 obs[name] = self.observe(name, grew, ds)
         ev["obs"] = obs
         if a == "Create":
@@ -487,7 +527,7 @@ class Comparator:
                 self.bad(prop, "history-length", m=name, expected=len(sh), got=[lo, lf], **ctx)
                 continue
             for k, (s, i) in enumerate(zip(sh, ih)):
-                prop = "C17" if a in ("Load", "FromFile") else "C08"
+                prop = "C17" if a in ("Load", "FromFile") else ("C01" if a == "Create" else "C08")
                 self.bind(self.omap, s["o"], i["o"], prop, "content-function-o", dict(m=name, snap=k, **ctx))
                 self.bind(self.fmap, s["f"], i["f"], prop, "content-function-f", dict(m=name, snap=k, **ctx))
         # disk
@@ -515,9 +555,9 @@ def budget(n, strain):
     return 5e-3 + 1e-3 * (n + 2 * strain)
 
 
-def replay_behaviour(beh, scratch_dir, comparator, tid, events, n_override=None, rate=1.0, fcheck=True):
+def replay_behaviour(beh, scratch_dir, comparator, tid, events, n_override=None, rate=1.0, fcheck=True, dt=None):
     """Run one behaviour (list of projected spec states, first = initial) on real objects."""
-    w = World(scratch_dir, n_override=n_override, rate=rate)
+    w = World(scratch_dir, n_override=n_override, rate=rate, dt=dt)
     # pre-built minerals: replay their construction, compare once against the initial state
     pre = beh[0].get("pre") or []
     for k, a in enumerate(pre):
@@ -610,7 +650,7 @@ TRACE_CLAUSES = {
 }
 
 
-def run_behaviours(chk, prop, behs, *, n_override=None, rate=1.0, fcheck=True, sig_extra=None):
+def run_behaviours(chk, prop, behs, *, n_override=None, rate=1.0, fcheck=True, sig_extra=None, dt_of=None):
     """Replay behaviours, validate the recorded calls with the trace spec, and report the
     mismatches / rejections whose clause belongs to `prop`.  Returns (events, comparator)."""
     from harness.common import scratch
@@ -621,7 +661,7 @@ def run_behaviours(chk, prop, behs, *, n_override=None, rate=1.0, fcheck=True, s
         for tid, b in enumerate(behs):
             sub = d / f"b{tid}"
             sub.mkdir()
-            replay_behaviour(b, sub, comp, tid, events, n_override=n_override, rate=rate, fcheck=fcheck)
+            replay_behaviour(b, sub, comp, tid, events, n_override=n_override, rate=rate, fcheck=fcheck, dt=dt_of(tid) if dt_of else None)
             chk.count(("beh", json.dumps([s["act"] for s in b[1:]], sort_keys=True)))
             import shutil
 
@@ -643,11 +683,25 @@ def run_behaviours(chk, prop, behs, *, n_override=None, rate=1.0, fcheck=True, s
         rejects, tr = validate_trace(events, d)
         chk.add_tlc("MineralTrace", tr, f"{len(events)} recorded calls of {len(behs)} behaviours")
         chk.cov["traces_validated_against_impl"] += len(behs)
+        # minerals whose history contains an accepted matrix_diffusion update (known finding F2)
+        tainted = set()
+        taint_at = {}
+        for i, ev in enumerate(events):
+            if ev["ev"] in ("Update", "UpdateAll") and ev["exc"] == "None":
+                for name, ob in ev["obs"].items():
+                    if ob["cfg"]["regime"] == 1:
+                        tainted.add((ev["tid"], name))
+            elif ev["ev"] in ("Create", "FromFile", "Load") and "m" in ev:
+                tainted.discard((ev["tid"], ev["m"]))
+            taint_at[i] = set(tainted)
         for tid, line, clause in rejects:
             if clause.startswith(TRACE_CLAUSES[prop]):
                 ev = events[line - 1]
                 cfg = ev["obs"].get(ev.get("m"), {}).get("cfg", {}) if "m" in ev else {}
-                sig = dict(level="trace", clause=clause.split("-where")[0], ev=ev["ev"], regime=cfg.get("regime"))
+                sig = dict(level="trace", clause=clause.split("-where")[0], ev=ev["ev"],
+                           after_matrix_diffusion=any((tid, n) in taint_at[line - 1] for n in ev["obs"]))
+                if not sig["after_matrix_diffusion"]:
+                    sig["regime"] = cfg.get("regime")
                 chk.violation(sig, f"trace spec rejected call {line} (trace {tid}, {ev['ev']}): {clause}", dict(event=ev))
             else:
                 chk.skip("foreign-reject-" + clause)
